@@ -90,21 +90,51 @@ Fixpoint intervals_from (h : hist) (l : N) (ti : nat) (cur : option interval) : 
   end.
 Definition intervals (h : hist) (l : N) (ti : nat) : list interval := intervals_from h l ti None.
 
-(* the calls on one (l, ti) strictly alternate RegStart RegEnd UnregStart UnregEnd *)
+(* the calls on one (l, ti) do not overlap: RegStart RegEnd UnregStart UnregEnd in
+   turn, where a call that changes nothing is a call like any other:
+     - Unregister for a listener that is not registered on that subject (never
+       was, was unregistered already, its registration failed): phase 0 -> 4 -> 0
+     - Register for a listener that is registered already: phase 2 -> 5 -> 2
+   Neither opens nor closes a registration interval ([intervals_from] skips
+   them), so clauses (a)-(d) speak about the other calls exactly as before; in
+   particular every listener that stays registered on the subject must still
+   receive everything (a). *)
 Fixpoint alternates (h : hist) (l : N) (ti : nat) (phase : nat) : bool :=
   match h with
   | [] => true
   | (_, e) :: r =>
       match e with
       | HRegStart l' ti' =>
-          if N.eqb l l' && Nat.eqb ti ti' then Nat.eqb phase 0 && alternates r l ti 1 else alternates r l ti phase
+          if N.eqb l l' && Nat.eqb ti ti'
+          then match phase with
+               | 0 => alternates r l ti 1
+               | 2 => alternates r l ti 5
+               | _ => false
+               end
+          else alternates r l ti phase
       | HRegEnd l' ti' ok =>
-          if N.eqb l l' && Nat.eqb ti ti' then Nat.eqb phase 1 && alternates r l ti (if ok then 2 else 0)
+          if N.eqb l l' && Nat.eqb ti ti'
+          then match phase with
+               | 1 => alternates r l ti (if ok then 2 else 0)
+               | 5 => alternates r l ti 2            (* stays registered whatever the call returned *)
+               | _ => false
+               end
           else alternates r l ti phase
       | HUnregStart l' ti' =>
-          if N.eqb l l' && Nat.eqb ti ti' then Nat.eqb phase 2 && alternates r l ti 3 else alternates r l ti phase
+          if N.eqb l l' && Nat.eqb ti ti'
+          then match phase with
+               | 2 => alternates r l ti 3
+               | 0 => alternates r l ti 4
+               | _ => false
+               end
+          else alternates r l ti phase
       | HUnregEnd l' ti' =>
-          if N.eqb l l' && Nat.eqb ti ti' then Nat.eqb phase 3 && alternates r l ti 0 else alternates r l ti phase
+          if N.eqb l l' && Nat.eqb ti ti'
+          then match phase with
+               | 3 | 4 => alternates r l ti 0
+               | _ => false
+               end
+          else alternates r l ti phase
       | _ => alternates r l ti phase
       end
   end.
